@@ -13,7 +13,7 @@ from vh import gen as G
 def units(tier):
     q = tier == "quick"
     us = []
-    for n in ((1, 2, 3) if q else (1, 2, 3, 4)):
+    for n in ((1, 2) if q else (1, 2, 3)):
         for std in ("f2003", "f2008"):
             for ic in (True, False):
                 us.append(dict(h="any_text", n=n, std=std, ic=ic, cost=n))
@@ -45,7 +45,7 @@ def units(tier):
 
 def meta(tier):
     q = tier == "quick"
-    return dict(bounds=dict(arbitrary_text_len=3 if q else 4, alphabet="tab, newline, printable ASCII (97 characters) for every symbolic position",
+    return dict(bounds=dict(arbitrary_text_len=2 if q else 3, alphabet="tab, newline, printable ASCII (97 characters) for every symbolic position",
                             mutation="one character position of a catalogue program replaced by / preceded by a symbolic character, or deleted/duplicated",
                             positions="first, middle, last character and end of every line" if q else "every character position of every line",
                             programs=len(PG.base_programs())),
